@@ -65,3 +65,20 @@ class Comparer:
       return str(self.symb.conv(t))[:400]
     except Exception:
       return show(t)[:400]
+
+
+def spec_block(ev, src, env, decide=None):
+  """Execute statement source `src` abstractly in a fresh scope seeded with env;
+  returns the resulting variable map (name -> term)."""
+  import textwrap
+  tree = ast.parse(textwrap.dedent(src))
+  sc = Scope('function', None, locals_=set(), label='<spec>')
+  sc.vars.update(_STD)
+  sc.vars.update(env)
+  from .evalr import _Frame
+  ev.frames.append(_Frame('<spec>', len(ev.path)))
+  try:
+    ev.exec_block(tree.body, sc)
+  finally:
+    ev.frames.pop()
+  return sc.vars
